@@ -176,3 +176,32 @@ Proof. vm_compute. repeat split; congruence. Qed.
 Theorem exit_code_values :
   exit_code SFINISHED = 0%Z /\ exit_code SFAILURE = 2%Z /\ exit_code SCANCELLED = 3%Z.
 Proof. vm_compute. repeat split. Qed.
+
+(** everything the verdict says, in one statement *)
+Theorem verdict_all g s : Inv g s ->
+  (completion_gen g s = SFINISHED <-> canceled s = false /\ all_completed g s) /\
+  (completion_gen g s = SCANCELLED <-> cancel_done s \/ (all_resolved g s /\ cancelled s <> [])) /\
+  (completion_gen g s = SFAILURE <-> all_resolved g s /\ cancelled s = [] /\ failed s <> [] /\ ~ cancel_done s) /\
+  (completion_gen g s = SRUNNING <-> ~ cancel_done s /\ ~ all_resolved g s) /\
+  completion_gen g s <> SABORT /\
+  (completion_gen g s <> SRUNNING -> inprog s = []).
+Proof.
+  intros I. splits.
+  - apply verdict_finished; auto.
+  - apply verdict_cancelled.
+  - apply verdict_failure.
+  - apply verdict_running.
+  - apply verdict_never_abort.
+  - apply verdict_final_idle; auto.
+Qed.
+
+Theorem exit_code_all :
+  (forall r, exit_code r = 0%Z <-> r = SFINISHED) /\
+  (forall r, exit_code_conductor r = exit_code_maestro_fg r) /\
+  exit_code SFAILURE <> 0%Z /\ exit_code SCANCELLED <> 0%Z /\ exit_code SFAILURE <> exit_code SCANCELLED /\
+  exit_code SABORT <> 0%Z /\
+  exit_code SFINISHED = 0%Z /\ exit_code SFAILURE = 2%Z /\ exit_code SCANCELLED = 3%Z.
+Proof.
+  split; [intros r; apply exit_code_zero_iff|]. split; [apply exit_code_paths_agree|].
+  vm_compute. repeat split; congruence.
+Qed.
